@@ -1,10 +1,12 @@
 #!/bin/bash
-# run every registered quick check with several seeds; print the ones that alarm
+# run every registered quick check with several seeds; print exit status and wall time, flag the ones that alarm
 cd /verif
 for pid in $(python3 -c "import json;print(' '.join(c['property_id'] for c in json.load(open('MANIFEST.json'))['checks']))" 2>/dev/null); do
   for s in ${SEEDS:-0 1 2 3}; do
-    out=$(VERIF_SEED=$s bin/check $pid 2>/dev/null | grep -c "^VIOLATION")
-    [ "$out" != "0" ] && echo "ALARM $pid seed=$s violations=$out"
+    t0=$(date +%s)
+    VERIF_SEED=$s bin/check $pid > /tmp/seeds_$pid.out 2>/dev/null; rc=$?
+    v=$(grep -c "^VIOLATION" /tmp/seeds_$pid.out)
+    echo "$pid seed=$s exit=$rc violations=$v secs=$(( $(date +%s) - t0 ))"
   done
 done
 echo "seeds done"
